@@ -25,6 +25,7 @@ var verifTraceState struct {
 
 type verifTraceLine struct {
 	Pid       int    `json:"pid"`
+	Inst      string `json:"inst"` // identity of the Channels instance (one per manager lifetime)
 	Seq       uint64 `json:"seq"`
 	Chid      string `json:"chid"`
 	Self      string `json:"self"`
@@ -45,7 +46,7 @@ type verifTraceLine struct {
 	NR        int    `json:"nr"`
 }
 
-func verifTrace(evt datatransfer.Event, st datatransfer.ChannelState) {
+func verifTrace(c *Channels, evt datatransfer.Event, st datatransfer.ChannelState) {
 	verifTraceState.once.Do(func() {
 		dir := os.Getenv("VERIF_TRACE")
 		if dir == "" {
@@ -63,7 +64,7 @@ func verifTrace(evt datatransfer.Event, st datatransfer.ChannelState) {
 	defer verifTraceState.mu.Unlock()
 	verifTraceState.seq++
 	l := verifTraceLine{
-		Pid: os.Getpid(), Seq: verifTraceState.seq, Chid: st.ChannelID().String(), Self: st.SelfPeer().String(), Initiator: st.ChannelID().Initiator.String(),
+		Pid: os.Getpid(), Inst: fmt.Sprintf("%p", c), Seq: verifTraceState.seq, Chid: st.ChannelID().String(), Self: st.SelfPeer().String(), Initiator: st.ChannelID().Initiator.String(),
 		Ev: datatransfer.Events[evt.Code], Status: datatransfer.Statuses[st.Status()], Ip: st.InitiatorPaused(), RpView: st.ResponderPaused(),
 		Queued: st.Queued(), Sent: st.Sent(), Received: st.Received(), QIdx: st.QueuedCidsTotal(), SIdx: st.SentCidsTotal(), RIdx: st.ReceivedCidsTotal(),
 		Limit: st.DataLimit(), ReqFin: st.RequiresFinalization(), NV: len(st.Vouchers()), NR: len(st.VoucherResults()),
